@@ -704,6 +704,33 @@ fn random_steps(w: &mut World, rng: &mut StdRng, steps: usize, uid_pool: i64, la
                 // now and then a builder with many children under one node (6-7), the others small
                 let b = if room >= 8 && rng.gen_bool(0.12) {
                     { let n = rng.gen_range(7..=8); wide_builder(w, rng, lab, n, uid_pool) }
+                } else if room >= 9 && rng.gen_bool(0.15) {
+                    // a builder of 6-9 nodes, three or four levels deep, branches and leaves mixed among siblings
+                    {
+                        let n = rng.gen_range(6..=9);
+                        let mut b = random_builder_exact(w, rng, lab, n, uid_pool);
+                        if rng.gen_bool(0.5) {
+                            // fixed shapes: a branch followed by a leaf (and the reverse) below a node that still has
+                            // a later sibling or cousin waiting
+                            const SHAPES: [&[i64]; 5] = [&[0, 1, 1, 2, 2, 4], &[0, 1, 1, 2, 2, 3, 4], &[0, 1, 1, 1, 2, 2, 2, 6],
+                                                         &[0, 1, 2, 2, 3, 3, 5], &[0, 1, 1, 2, 2, 3, 3, 4, 6]];
+                            let shape = SHAPES[rng.gen_range(0..SHAPES.len())];
+                            if shape.len() <= n {
+                                let nodes = b.as_array_mut().unwrap();
+                                nodes.truncate(shape.len());
+                                let first = w.next_ref() as i64;
+                                for (node, pi) in nodes.iter_mut().zip(shape) {
+                                    node["pi"] = json!(*pi);
+                                    for v in node["refp"].as_array_mut().unwrap() {
+                                        if v.as_i64().unwrap() >= first + shape.len() as i64 {
+                                            *v = json!(0);
+                                        }
+                                    }
+                                }
+                            }
+                        }
+                        b
+                    }
                 } else {
                     random_builder(w, rng, lab, (room as usize).min(4), uid_pool)
                 };
